@@ -1,6 +1,7 @@
 package framecodec
 
 import (
+	"bufio"
 	"bytes"
 	"fmt"
 	"io"
@@ -122,7 +123,8 @@ func (e Enc) Paired(max int) Cfg {
 // ---- carriers --------------------------------------------------------------
 
 // Carriers are the message types an encoder must accept.
-var Carriers = []string{"[]byte", "string", "*bytes.Buffer", "*bytes.Reader", "*strings.Reader", "io.Reader", "io.Reader(data+EOF)", "[][]byte", "*bytes.Reader(part-read)"}
+var Carriers = []string{"[]byte", "string", "*bytes.Buffer", "*bytes.Reader", "*strings.Reader", "io.Reader", "io.Reader(data+EOF)", "[][]byte", "*bytes.Reader(part-read)",
+	"*bufio.Reader(small buffer)", "io.MultiReader"}
 
 // plainReader is an io.Reader and nothing else (no WriterTo, no Len).
 type plainReader struct {
@@ -183,6 +185,15 @@ func Carry(kind string, p []byte, rng *rand.Rand) interface{} {
 			parts = [][]byte{{}}
 		}
 		return parts
+	case "*bufio.Reader(small buffer)":
+		// an io.WriterTo that hands its content over in several Write calls from one reused buffer
+		return bufio.NewReaderSize(&plainReader{b: c, chunk: []int{0, 5, 1000}[rng.Intn(3)]}, 16)
+	case "io.MultiReader":
+		a := 0
+		if len(c) > 0 {
+			a = rng.Intn(len(c) + 1)
+		}
+		return io.MultiReader(bytes.NewReader(c[:a]), &plainReader{b: c[a:], chunk: []int{0, 3, 600}[rng.Intn(3)]})
 	case "*bytes.Reader(part-read)":
 		junk := make([]byte, 1+rng.Intn(5))
 		r := bytes.NewReader(append(junk, c...))
